@@ -1,7 +1,7 @@
 (* C02 -- validating entry points accept exactly the well-formed JSON texts.
    Statements only; proofs live in Model/. *)
 From Coq Require Import List NArith Arith.
-From SonicV Require Import Spec.Ref Model.SkipStr Model.SkipNum Model.Skip Model.SkipAll Model.RefSound Model.SkipComplete Model.RefComplete.
+From SonicV Require Import Spec.Ref Model.SkipStr Model.SkipNum Model.Skip Model.SkipAll Model.RefSound Model.SkipComplete Model.RefComplete Model.StrictStr Model.StrictVal.
 Import ListNotations.
 Open Scope N_scope.
 
@@ -56,3 +56,19 @@ Proof. exact rfc_text_is_skip_text. Qed.
 Theorem reference_accepts_exactly_wf : forall l, rfc_text l = true <->
   exists w1 v w2, l = w1 ++ v ++ w2 /\ all_ws w1 /\ Value v /\ all_ws w2.
 Proof. exact rfc_text_iff. Qed.
+
+(* ---------- the fully-decoding entry points ---------- *)
+(* strings: the strict reference decoder accepts exactly the RFC string bodies in which every \u escape
+   denotes a scalar value (surrogates only as a high surrogate immediately followed by a low one) *)
+Theorem strict_string_decoder_accepts_exactly : forall r rest,
+  (exists d h, Ref.str_body true (S (length r)) r = Some (d, h, rest)) <-> (exists body, r = body ++ 34 :: rest /\ sbody body).
+Proof. exact strict_decoder_iff. Qed.
+(* texts: the strict reference parser (what every full-decoding verdict is compared with, together
+   with UTF-8 validity and finiteness of the numbers) accepts exactly whitespace, one value whose strings
+   are all strict, whitespace *)
+Theorem strict_reference_accepts_exactly : forall l, (exists v a b, ref_text true l = Some (v, a, b)) <->
+  (exists w1 tok w2, l = w1 ++ tok ++ w2 /\ all_ws w1 /\ SValue tok /\ all_ws w2).
+Proof. exact strict_text_iff. Qed.
+(* and a strict value is in particular an RFC 8259 value: full decoding accepts less, never more *)
+Theorem strict_values_are_values : forall v, SValue v -> Value v.
+Proof. exact (proj1 strict_value_is_value). Qed.
